@@ -372,6 +372,7 @@ impl<'a> World<'a> {
                         let right = Chunk::new(Bytes::from(chunk_payload(&self.held[&vkey])));
                         Answer::Found(try_serialize_record(&right, RecordKind::Scratchpad).expect("ser").to_vec())
                     }
+                    7 => Answer::Found(labelled_chunk_value(&vkey, &chunk_payload(&foreign))),
                     _ => {
                         let mut v = self.held[&vkey][..3].to_vec();
                         v.extend_from_slice(&[0xc1, 0xc1, 0xc1]);
@@ -385,6 +386,7 @@ impl<'a> World<'a> {
                     3 => "foreign_chunk_substituted",
                     4 => "wrong_record_kind",
                     6 => "other_chunk_returned_under_its_own_key",
+                    7 => "other_content_labelled_with_the_requested_address",
                     _ => "undecodable_bytes",
                 };
                 self.rep.fault(kind);
@@ -442,6 +444,7 @@ impl<'a> World<'a> {
                     2 | 3 => "other_valid_chunk_substituted",
                     4 => "wrong_record_kind",
                     6 => "other_chunk_returned_under_its_own_key",
+                    7 => "other_content_labelled_with_the_requested_address",
                     _ => "undecodable_bytes",
                 };
                 self.rep.fault(kind);
@@ -451,6 +454,7 @@ impl<'a> World<'a> {
                     6 => chunk_record_value(other.value()),
                     2 | 3 => chunk_record_value(other.value()),
                     4 => try_serialize_record(&chunk, RecordKind::Scratchpad).expect("ser").to_vec(),
+                    7 => labelled_chunk_value(&key, other.value()),
                     _ => {
                         let mut v = self.held[&key][..3].to_vec();
                         v.extend_from_slice(&[0xc1, 0xc1]);
@@ -609,6 +613,21 @@ impl<'a> World<'a> {
             }
         }
     }
+}
+
+/// What a holder can send if a chunk travelled as (address, content) instead of content only: other content
+/// labelled with the requested address. With the shipped encoding (content only, address recomputed) these
+/// bytes do not even decode as a chunk.
+fn labelled_chunk_value(requested: &[u8], content: &[u8]) -> Vec<u8> {
+    #[derive(serde::Serialize)]
+    struct Labelled {
+        address: ant_protocol::storage::ChunkAddress,
+        value: Bytes,
+    }
+    let mut x = [0u8; 32];
+    x.copy_from_slice(&requested[..32]);
+    let l = Labelled { address: ant_protocol::storage::ChunkAddress::new(xor_name::XorName(x)), value: Bytes::copy_from_slice(content) };
+    try_serialize_record(&l, RecordKind::Chunk).expect("ser").to_vec()
 }
 
 /// payload bytes of a serialised chunk record (skips the 3-byte header and the msgpack bin prefix by re-parsing)
